@@ -8,8 +8,12 @@
 (***************************************************************************)
 EXTENDS TraceIO, StateSpecOps
 
-VARIABLES l, cnt
-vars == <<l, cnt>>
+VARIABLES l, cnt,
+          \* the density iteration as DensityIteration.tla sees it (driven by the hook H2 events of the current call)
+          pc, iterations, converged, result, synced
+vars == <<l, cnt, pc, iterations, converged, result, synced>>
+DI == INSTANCE DensityIteration WITH MaxIter <- 50, Variant <- "code"
+divars == <<pc, iterations, converged, result, synced>>
 E == Rec[l]
 Ev(name) == l <= NRec /\ E.ev = name /\ l' = l + 1
 
@@ -96,8 +100,50 @@ Npt ==
                       FClose(E.none.rho, stable.rho, "1e-8", FAbs(stable.rho), "0")))
         /\ cnt' = BumpAll(cnt, {"npt_cells"} \cup (IF inDomain THEN {"npt_in_success_domain"} ELSE {}) \cup (IF distinct THEN {"npt_two_roots"} ELSE {}) \cup (IF E.init.ok THEN {"npt_init_ok"} ELSE {"npt_init_err"}))
 
-Init == l = 1 /\ cnt = NoCount
-Next == /\ (Build \/ Npt \/ NoCritical)
+
+\* ---------------------------------------------------------------- density iteration, bound by hook H2
+\* The hook reports DIStart, one DIIter per executed loop iteration (unstable: a repair branch re-seated the density and `continue`d;
+\* otherwise a Newton step with the outcome of the convergence test) and DIEnd with the result.  Each event must be the corresponding
+\* action of DensityIteration.tla (MaxIter = 50, the loop exactly as written).  Whether the recorded run IS a behaviour of the model is a
+\* binding fact, not a claim of C03: it is counted (di_as_modelled / di_not_as_modelled; ./check stops with a tool error when the
+\* model no longer describes the code).  What C03 does imply is judged on DICall: inside the stated (T, p) domain a density iteration
+\* that returns Ok left the loop through a converged Newton step, and the returned state has the specified pressure.
+DIStart == /\ Ev("DIStart")
+           /\ pc' = "loop" /\ iterations' = 0 /\ converged' = FALSE /\ result' = "none" /\ synced' = TRUE     \* DI!Init followed by DI!Enter
+           /\ cnt' = Bump(cnt, "di_runs")
+DIIterNewton(c) == /\ pc = "loop" /\ iterations < 50 /\ ~converged
+                   /\ iterations' = iterations + 1 /\ converged' = c /\ UNCHANGED <<pc, result>>          \* DI!Newton with the logged test outcome
+DIIterUnstable == /\ pc = "loop" /\ iterations < 50 /\ ~converged
+                  /\ iterations' = iterations + 1 /\ converged' = FALSE /\ UNCHANGED <<pc, result>>        \* DI!Unstable, `continue`
+DIIter == /\ Ev("DIIter")
+          /\ LET A == IF E.unstable THEN DIIterUnstable ELSE DIIterNewton(E.converged)
+                 fits == synced /\ pc = "loop" /\ iterations < 50 /\ ~converged /\ E.k = iterations
+             IN IF fits THEN A /\ synced' = TRUE ELSE UNCHANGED <<pc, iterations, converged, result>> /\ synced' = FALSE
+          /\ cnt' = BumpAll(cnt, {"di_iterations"} \cup (IF E.unstable THEN {"di_unstable_branch"} ELSE {}))
+\* the result the model's Exit / Finish gives for the current state (Variant "code": Ok unless iterations = MaxIter + 1, which cannot happen)
+DIEnd == /\ Ev("DIEnd")
+         /\ LET modelled == \/ (E.result = "InvalidState" /\ iterations = 0)
+                            \/ (E.result = "IterationFailed" /\ pc = "loop")
+                            \/ (E.result = "Ok" /\ pc = "loop" /\ (converged \/ iterations = 50) /\ E.iterations = iterations)
+            IN /\ synced' = (synced /\ modelled)
+               /\ pc' = "done" /\ result' = E.result /\ UNCHANGED <<iterations, converged>>
+         /\ cnt' = BumpAll(cnt, {"di_end:" \o E.result})
+DICall ==
+  /\ Ev("DICall")
+  /\ LET inDomain == FLe(E.Tr, "1.65") /\ FLe(E.pr, "10")
+         ranToEnd == pc = "done"
+     IN
+     \* the API result is what the loop reported (Ok <-> Ok)
+     /\ (ranToEnd => Report("C03.density_iteration_result_is_returned", <<E.file, E.index, E.init, E.status, result, l>>, (E.status = "Ok") <=> (result = "Ok")))
+     /\ ((inDomain /\ E.status = "Ok" /\ ranToEnd) =>
+           /\ Report("C03.density_iteration_ok_means_converged", <<E.file, E.index, E.init, E.Tr, E.pr, iterations, l>>, converged)
+           /\ Report("C03.pressure_met", <<E.file, E.index, E.Tr, E.pr, E.p_in, E.p, E.init, l>>, FClose(E.p, E.p_in, "1e-9", FAbs(E.p_in), "1e-11")))
+     /\ cnt' = BumpAll(cnt, {"di_calls"} \cup (IF synced /\ ranToEnd THEN {"di_as_modelled"} ELSE {"di_not_as_modelled"})
+                   \cup (IF E.status = "Ok" /\ ~converged /\ ranToEnd THEN {"di_ok_without_convergence"} ELSE {}))
+     /\ pc' = "start" /\ iterations' = 0 /\ converged' = FALSE /\ result' = "none" /\ synced' = TRUE
+
+Init == l = 1 /\ cnt = NoCount /\ pc = "start" /\ iterations = 0 /\ converged = FALSE /\ result = "none" /\ synced = TRUE
+Next == /\ ((Build /\ UNCHANGED divars) \/ (Npt /\ UNCHANGED divars) \/ (NoCritical /\ UNCHANGED divars) \/ DIStart \/ DIIter \/ DIEnd \/ DICall)
         /\ (l' > NRec => PrintT("STATS " \o ToJson(cnt')))
 TraceSpec == Init /\ [][Next]_vars
 ================================================================================
